@@ -61,7 +61,8 @@ def seg? (s : String) : Option Seg :=
 /-- table / alias / target names: non-empty, modelled alphabet -/
 def tblOk (n : Name) : Bool := nameOk n && !n.isEmpty
 
-/-- table names and alias targets are index names: additionally a simple file name (no `\\`, not `.`/`..`;
+/-- table names, alias targets and (since patch c20-14: `AddAliases` refuses any other) alias names are index names:
+additionally a simple file name (no `\\`, not `.`/`..`;
 `/` is outside the alphabet anyway) — the code rejects other names since the path-safety fix -/
 def idxOk (n : Name) : Bool := tblOk n && !n.contains '\\' && n != ['.'] && n != ['.', '.']
 
@@ -74,7 +75,7 @@ def doExpand (args : List String) : String :=
     match org? o, (if es = "0" then some false else if es = "1" then some true else none), name? e,
           (listArg "T" t).bind (·.mapM table?), (listArg "A" a).bind (·.mapM alias?) with
     | some o, some es, some e, some ts, some as =>
-      if !(exprInFragment e && ts.all (fun p => idxOk p.2) && as.all (fun x => tblOk x.alias && x.targets.all idxOk)) then "out-of-fragment"
+      if !(exprInFragment e && ts.all (fun p => idxOk p.2) && as.all (fun x => idxOk x.alias && x.targets.all idxOk)) then "out-of-fragment"
       else
         let r := expand e o es ts as
         s!"n={r.length} r={String.intercalate ";" (r.map showName)}"
